@@ -122,6 +122,16 @@ def lastIdxPerAff (ds : List Delta) (bound : Nat) : List (Aff × Nat) :=
     (d.tx.aff, i) :: acc.filter (fun p => p.1 != d.tx.aff)) ([] : List (Aff × Nat))
   pairs.foldr insertPair []
 
+/-- The row an unsummarisable delta is carried over as: its transaction, with the superficial loss
+    that was computed for it written into the `superficial loss` cell. -/
+def carryTx (d : Delta) : Tx :=
+  match d.sfl, d.tx.act with
+  | some s, .sell sh px comm rate crate spec =>
+    -- an amount the user forced stays forced (fix cd15d29)
+    let force := match spec with | some (_, f) => f | none => false
+    { d.tx with act := .sell sh px comm rate crate (some (s.loss, force)) }
+  | _, _ => d.tx
+
 /-- `make_summary_txs` for one security. -/
 def makeSummaryTxs (yearOf : Int → Int) (jan1 : Int → Int) (latest : Int) (annual : Bool) (ds : List Delta) : List Tx :=
   match summaryRange latest ds with
@@ -139,12 +149,6 @@ def makeSummaryTxs (yearOf : Int → Int) (jan1 : Int → Int) (latest : Int) (a
     let sorted := sorted.map (fun t => { t with idx := 0 })
     let firstUnsum := match r.lastSummarizable with | some ls => ls + 1 | none => 0
     let unsum := (ds.take (r.lastInRange + 1)).drop firstUnsum
-    sorted ++ unsum.map (fun d =>
-      match d.sfl, d.tx.act with
-      | some s, .sell sh px comm rate crate spec =>
-        -- an amount the user forced stays forced (fix cd15d29)
-        let force := match spec with | some (_, f) => f | none => false
-        { d.tx with act := .sell sh px comm rate crate (some (s.loss, force)) }
-      | _, _ => d.tx)
+    sorted ++ unsum.map carryTx
 
 end Acb
